@@ -35,7 +35,7 @@ EXCS = {"RuntimeError": RuntimeError, "ValueError": ValueError, "OSError": OSErr
 VIEWS = ["contig", "slice", "step", "transpose", "inner", "expand"]
 CLS = ["rand", "all256", "zeros", "ff", "ramp", "cover"]
 ATEN = ["add", "eq", "sum", "select", "slice", "reshape", "clone", "to_int32", "cat"]
-OPKINDS = ["unpack_bytes", "unpack_packed", "pack", "aten", "detach", "to", "flatten", "noext", "mutate", "refill"]
+OPKINDS = ["unpack_bytes", "unpack_packed", "pack", "aten", "detach", "to", "flatten", "noext", "mutate", "refill", "meta"]
 PREFIXES = ["", "w.", "weight._data.", "m.0.weight._data."]
 FALLBACK = "Falling back to default implementation"
 
@@ -378,6 +378,37 @@ class World:
                 self.violate("history", op["op"], {"what": "earlier_result_changed"}, f"a tensor returned by an earlier unpack changed its values while {op['op']} ran", p)
                 self.held[k] = (None, None)
         return ok
+
+    def op_meta(self, op, p):
+        """unpack of a payload that lives on the meta device (an empty model being built or moved): there is no
+        optimized kernel for it, so the op falls back; only the shape can be judged here - what matters is that
+        later calls on real tensors still return the right values."""
+        e = self.pool.get(op.get("x"))
+        if e is None:
+            return "skipped"
+        if e.kind == "packed":
+            moved, exc = _call(lambda: e.obj.to("meta"))
+            if exc is not None:
+                return "skipped"
+            call = lambda: moved.unpack()
+            want = tuple(e.truth.shape)
+        else:
+            bits = op.get("bits")
+            if bits not in (2, 4):
+                return "skipped"
+            moved, exc = _call(lambda: e.obj.to("meta"))
+            if exc is not None:
+                return "skipped"
+            call = lambda: torch.ops.quanto.unpack(moved, bits)
+            want = (e.raw.shape[0] * 8 // bits,) + tuple(e.raw.shape[1:])
+        out, exc, route = self.routed(call, op, p)
+        if exc is not None:
+            return route
+        self.probe("unpack_on_meta_device")
+        if not isinstance(out, torch.Tensor) or out.device.type != "meta" or tuple(out.shape) != want or out.dtype != torch.uint8:
+            self.violate("value", "meta", {"what": "shape_or_device"}, f"unpack of a meta payload returned {getattr(out, 'device', None)} {tuple(getattr(out, 'shape', ()))} {getattr(out, 'dtype', None)}, expected meta {want} uint8", p)
+            return "WRONG"
+        return route
 
     def op_refill(self, op, p):
         """The caller overwrites its own uint8 staging buffer in place with a new payload (same shape)."""
@@ -932,6 +963,11 @@ class Planner:
             if r.random() < 0.25 and shape[0] * 8 // bits <= 17:
                 op["out"] = f"b{self.n}"
                 self.bytes[op["out"]] = ((1 << bits) - 1, [shape[0] * 8 // bits] + shape[1:])
+        elif k == "meta":
+            pool = sorted(self.bytes) + sorted(self.packs)
+            if pool:
+                x = r.choice(pool)
+                self.emit(ops, {"op": "meta", "x": x, "bits": r.choice(sw["bits"])})
         elif k == "refill":
             if self.bytes:
                 x = r.choice(sorted(self.bytes))
